@@ -53,6 +53,13 @@ HIER = {
     "gen_mid_plain": ({"Base": klass(decl=["x"], body={"x": b(True, I(1))}),
                        "Mid": klass(bases=["Base"], decl=["m"], body={"m": b(True, I(3))}),
                        "Leaf": klass(bases=["Mid"], spec=False, body={"x": b(True, I(9)), "m": b(True, I(4))})}, ["Leaf"]),
+    # a hand-written constructor further up assigns an attribute that a nearer class owns: the nearer owner decides (parents are constructed base-most first)
+    "hand_base_redeclared": ({"Base": klass(decl=["x", "y"], body={"x": b(False), "y": b(False)}, hand=[("x", 1), ("y", 10)]),
+                              "Mid": klass(bases=["Base"], decl=["x", "m"], body={"x": b(True, I(2)), "m": b(True, I(3))}),
+                              "Leaf": klass(bases=["Mid"], decl=["z"], body={"z": b(True, I(4))})}, ["Mid", "Leaf"]),
+    "two_parents_shared": ({"Left": klass(decl=["sh"], body={"sh": b(True, I(100))}),
+                            "Right": klass(decl=["sh", "r"], body={"sh": b(False), "r": b(False)}, hand=[("sh", -5), ("r", 2)]),
+                            "Both": klass(bases=["Left", "Right"], decl=["c"], body={"c": b(True, I(0))})}, ["Both"]),
     "spec_plain_spec": ({"P": klass(decl=["a"], body={"a": b(True, I(1))}),
                          "D": klass(bases=["P"], spec=False, body={}),
                          "E": klass(bases=["D"], decl=["e"], body={"e": b(True, I(2))})}, ["E"]),
